@@ -12,9 +12,9 @@ CONSTANTS
   Dev_CsIndex = FALSE
   Dev_SizeHint = FALSE
   Dev_RsrcRecursion = FALSE
-  Dev_FirstDepth = TRUE
+  Dev_FirstDepth = FALSE
   Dev_KidsDepth = FALSE
-  FirstWalkIterative = FALSE
+  FirstWalkIterative = TRUE
   StackFrames = 300
   OutlineDepthLimit = 256
   NameTreeDepthLimit = 256
